@@ -10,4 +10,9 @@ cp *.ml _build/
 cd _build
 ORDER=$(ocamlfind ocamldep -sort *.ml *.mli)
 ocamlfind ocamlopt -O3 -unboxed-types 2>/dev/null || true
-ocamlfind ocamlopt -w -a -o ../driver $ORDER
+# the driver: everything but the entry point of vdpll
+DRV=$(for f in $ORDER; do case $f in vdpll_main.ml) ;; *) printf '%s ' $f ;; esac; done)
+ocamlfind ocamlopt -w -a -o ../driver $DRV
+# vdpll (stand-alone DIMACS solver): the same extracted modules + dcommon + its own entry point
+VD=$(for f in $ORDER; do case $f in main.ml|d_*.ml) ;; *) printf '%s ' $f ;; esac; done)
+ocamlfind ocamlopt -w -a -o ../vdpll $VD
